@@ -6,7 +6,8 @@ ID = "C08"
 LEVEL = "exploration"
 RULE = (
     "Hypothesis draws an engine case (see C06) with 1-2 tokens (file-based or process-level, totals 1-4, "
-    "heterogeneous per-job requests, several tokens per job), foreign schedulers acquiring and releasing on "
+    "heterogeneous per-job requests, several tokens per job, 4 % of the token-holding jobs with two dependencies on "
+    "one token), foreign schedulers acquiring and releasing on "
     "the same token directory at generated steps (their watcher events delivered late and out of order across "
     "files), and a schedule. Oracle at every launch event and every idle point: requests of own jobs between "
     "launch and exit + holdings of live foreign jobs <= total, and the token files on disk sum to <= total. "
@@ -36,7 +37,7 @@ def prop(ctx, case):
 
 
 def cases(ctx):
-    return eg.engine_cases(max_jobs=ctx.pick(5, 7), tokens=2, tok_pct=85, up_pct=25, fail_pct=15, dups=False, wait_pct=10, done_pct=2, adopt_pct=0)
+    return eg.engine_cases(max_jobs=ctx.pick(5, 7), tokens=2, tok_pct=85, up_pct=25, fail_pct=15, dups=False, wait_pct=10, done_pct=2, adopt_pct=0, dup_tok_pct=4)
 
 
 PARTS = [Part("engine", prop, strategy=cases, quick=6400, thorough=160000, shrink_budget=40)]
